@@ -373,6 +373,13 @@ def run_shard(desc, tier):
         apps = {i: echo_app(i) for i in ("wsgi", "asgi")}
         for bk, areq in body_requests(tier):
             compare(r, f"echo-body:{bk}", apps, areq, f"POST {bk} body in chunks {[len(c) for c in areq.chunks]}")
+        # a view that parses the form and answers with a stream that reads the uploaded file while the body goes out
+        from . import c20
+        ups = {i: mod(i).request_response(c20.recipes(i, "/dev/null")["upload_stream"]) for i in ("wsgi", "asgi")}
+        blob = bytes(range(256)) * 40
+        mp_body = b'--bd\r\nContent-Disposition: form-data; name="t"\r\n\r\ntext\r\n--bd\r\nContent-Disposition: form-data; name="u"; filename="up.bin"\r\n\r\n' + blob + b'\r\n--bd--\r\n'
+        for chunks in ([mp_body], [mp_body[:100], mp_body[100:5000], mp_body[5000:]]):
+            compare(r, "echo-body:upload-streamed-back", ups, SV.AReq(method="POST", path="/p", headers=[("Content-Type", "multipart/form-data; boundary=bd")], chunks=chunks), f"POST multipart upload streamed back lazily, body in chunks {[len(c) for c in chunks]}")
         r.sample({"recipe": "echo view with body", "body_kind": "multipart2", "chunking": "every two-way split"})
     elif kind == "fileobject-pairs":
         # two requests at once on one FileResponse object, on either stack: each request gets on both stacks what it gets alone
